@@ -21,13 +21,28 @@ Definition c12_prop (t : ty) (bs : list byte) (o : impl_obs) : bool :=
   | IPanic => false
   end.
 
-(* the allocation budget the harness measures against: 1 MiB + 2048 bytes per input byte *)
-Definition alloc_budget (bs : list byte) : N := 1048576 + 2048 * N.of_nat (length bs).
+(* the allocation budget the harness measures against: 256 KiB + 2048 bytes per input byte *)
+Definition alloc_budget (bs : list byte) : N := 262144 + 2048 * N.of_nat (length bs).
 
 (* cfg with the hypothetical strict map decoding (keys strictly ascending) *)
 Definition strict (c : cfg) : cfg :=
   {| fix_read := fix_read c; fix_big := fix_big c; fix_bytes := fix_bytes c; fix_map := fix_map c;
      fix_uint57 := fix_uint57 c; strict_map := true |}.
+
+Definition with_bytes (c : cfg) : cfg :=
+  {| fix_read := fix_read c; fix_big := fix_big c; fix_bytes := true; fix_map := fix_map c;
+     fix_uint57 := fix_uint57 c; strict_map := strict_map c |}.
+
+(* guard of finding C12 bytes-overrun: some byte string / string in the input declares a length
+   larger than the input that remains.  decodeBytes allocates the declared length and accepts the
+   short read (zero-filled); the repaired decodeBytes (cfg with_bytes) fails instead, so the two
+   decoders disagree on the outcome exactly on these inputs *)
+Definition bytes_overrun (t : ty) (bs : list byte) : bool :=
+  match decode_res current t bs, decode_res (with_bytes current) t bs with
+  | Ok _, Err _ => true
+  | Err _, Err _ => alloc_budget bs <? decode_cost current t bs
+  | _, _ => false
+  end.
 
 (* guard of finding C12 map-noncanonical: the decoder accepts the input only because decodeMap
    takes entries in any key order / with repeated keys *)
